@@ -246,6 +246,11 @@ program fdrv
     call a%%dtor()
     call b%%dtor()
   end do
+  ! one object of each of the twelve further classes: each is released through its own destructor
+  block
+%(kdecl)s
+%(kuse)s
+  end block
   ! the driver's own allocatables (a main program does not free them at exit)
   if (allocated(v)) deallocate(v)
   if (allocated(s)) deallocate(s)
@@ -384,7 +389,10 @@ def cut_sequences(events, asan, kinds):
 def fortran_part(c, d, lib):
     objs, inc, out = lib
     src = os.path.join(d, "fdrv.f90")
-    open(src, "w").write(FDRIVER % {})
+    open(src, "w").write(FDRIVER % {
+        "kdecl": "\n".join("    type(k%02d) :: x%02d" % (k, k) for k in range(1, NKINDS + 1)),
+        "kuse": "\n".join("    x%02d = k%02d(%d)" % (k, k, k) for k in range(1, NKINDS + 1)) + "\n" +
+                "\n".join("    call x%02d%%dtor()" % k for k in range(NKINDS, 0, -1))})
     fobjs = []
     for s in open(os.path.join(d, "ffiles.txt")).read().split() + [src]:
         o = os.path.join(d, os.path.basename(s) + ".o")
@@ -443,8 +451,12 @@ PHPP_EXTRA = "char *pdup(int k);\nint *pints(int n);\n"
 NKINDS = 12
 PYAML = PYAML.replace("%(kinds)s", "".join(
     "- decl: class K%02d\n  declarations:\n  - decl: K%02d(int v)\n  - decl: ~K%02d()\n" % (k, k, k) for k in range(1, NKINDS + 1)))
-PHPP_EXTRA += "".join("class K%02d { public: int v; explicit K%02d(int v); ~K%02d(); };\n" % (k, k, k) for k in range(1, NKINDS + 1))
-PCPP_EXTRA += "".join(
+KYAML = "".join("- decl: class K%02d\n  declarations:\n  - decl: K%02d(int v)\n  - decl: ~K%02d()\n" % (k, k, k) for k in range(1, NKINDS + 1))
+# (classes of different sizes: a release through another class's destructor is also a size mismatch for ASan)
+HPP = HPP.replace("#endif", "".join("class K%02d { public: int v; int pad[%d]; explicit K%02d(int v); ~K%02d(); };\n" % (k, k, k, k)
+                                    for k in range(1, NKINDS + 1)) + "#endif", 1)
+YAML = YAML.replace("- decl: namespace inner\n", KYAML + "- decl: namespace inner\n", 1)
+CPP += "".join(
     'K%(k)02d::K%(k)02d(int v_) : v(v_) { vt_live(1); vt_begin("Lib", "ctor"); vt_obj(this); vt_int(%(k)d); vt_end(); }\n'
     'K%(k)02d::~K%(k)02d() { vt_live(-1); vt_begin("Lib", "dtor"); vt_obj(this); vt_int(%(k)d); vt_end(); }\n' % {"k": k}
     for k in range(1, NKINDS + 1))
